@@ -685,5 +685,9 @@ KEEP_AGENTS = [
     ('R19-2', 'DIFF', 'R_C19_2.diff', None, ALL, 'equivalent library call, Option/Result combinators -> match / let-else, closure for repeated field extraction, mutation -> array pattern rebuild, struct field init shorthand: src/parameters_from_file.'),
     ('R19-3', 'DIFF', 'R_C19_3.diff', None, ALL, 'iterator chain + collect::<Result> -> for loop with ?, closure body extracted into a helper fn, if-let/else -> match with shared error closure, Option combinators -> match on enum variants: src/parame'),
     ('R19-4', 'DIFF', 'R_C19_4.diff', None, ALL, 'single format! -> incremental String building with a loop over (name, value) pairs; map/collect/join -> index-aware loop in a local generic fn; inverted condition with swapped branches; inline format '),
+    ('R12-1', 'DIFF', 'R_C12_1.diff', None, ALL, 'index loop + if/else special-casing -> anchor list built with iterator chain, traversed with windows(2): Cartesian::with_intermediate_poses (pose densification driver): instead of pushing land, branch'),
+    ('R12-2', 'DIFF', 'R_C12_2.diff', None, ALL, 'while-let over a slice iterator -> for; enumerate loop with per-item flag choice -> split_last + extend; success-flag search loop -> find_map + let-else: Cartesian::probe_strategy (flag assignment and'),
+    ('R12-3', 'DIFF', 'R_C12_3.diff', None, ALL, 'for loop with early return -> Iterator::find; if/else inverted into a guard clause with early Err return; chain().collect() -> extend on the first vector: Cartesian::step_adaptive_linear_transition (a'),
+    ('R12-4', 'DIFF', 'R_C12_4.diff', None, ALL, 'extract helper method + temporaries removed/introduced; push loop -> into_iter().filter().collect(); manual length check and element-wise copy -> TryFrom<Vec<f64>> for [f64; 6]: Cartesian::add_interme'),
 ]
 KEEP += KEEP_AGENTS
